@@ -1382,6 +1382,18 @@ def regenerate(repo_src, gen_dir, quiet=False):
     for name, text in sorted(outs.items()):
         changed = _write_if_changed(os.path.join(gen_dir, name), text)
         report["gen_files"]["Gen/" + name] = {"sha256": _sha(text), "rewritten": changed}
+    # the second-order measure formulas (matrix/measure.py, stripe/measure.py, cubepart.py MoE):
+    # harness/translate/measures.py -> Gen/MeasureSrc.v, StripeMeasureSrc.v, PartMeasureSrc.v
+    try:
+        from harness.translate import measures
+
+        measures.regenerate(repo_src, gen_dir, report)
+    except Exception as ex:  # a bug of ours: fail closed (files without definitions)
+        report["errors"].append("measures: %r" % (ex,))
+        for name in ("MeasureSrc.v", "StripeMeasureSrc.v", "PartMeasureSrc.v"):
+            text = "(* GENERATED: the measure translator failed: %s *)\n" % _coq_comment(repr(ex))
+            changed = _write_if_changed(os.path.join(gen_dir, name), text)
+            report["gen_files"]["Gen/" + name] = {"sha256": _sha(text), "rewritten": changed}
     report["n_translated"] = len(report["methods_translated"])
     report["n_unavailable"] = len(report["unavailable"])
     if not quiet:
